@@ -23,7 +23,14 @@ import (
 
 func ParseSps(payload []byte, ctx *Context) error {
 	// ISO-14496-10 7.4.1: drop every emulation_prevention_three_byte (00 00 03 -> 00 00) before reading the RBSP
-	br := nazabits.NewBitReader(bytes.Replace(payload, []byte{0x0, 0x0, 0x3}, []byte{0x0, 0x0}, -1))
+	//
+	// The reader gets the RBSP copy with one zero byte appended: nazabits.ReadUeGolomb finishes a code
+	// word of value 0 with a zero-width read that indexes core[index], which is past the end (panic)
+	// when the code word's 1 bit is the very last bit of the buffer - a truncated SPS from any
+	// publisher. With the extra byte every 1 bit has a byte behind it; an Exp-Golomb code cannot
+	// complete inside the zero padding, so a well-formed SPS (it ends with its stop bit) reads as before.
+	rbsp := bytes.Replace(payload, []byte{0x0, 0x0, 0x3}, []byte{0x0, 0x0}, -1)
+	br := nazabits.NewBitReader(append(rbsp, 0))
 	var sps Sps
 	if err := parseSpsBasic(&br, &sps); err != nil {
 		Log.Errorf("parseSpsBasic failed. err=%+v, payload=%s", err, hex.Dump(nazabytes.Prefix(payload, 128)))
